@@ -7,7 +7,8 @@ import c03
 
 INLINE = ["plain words", "''italic''", "'''bold'''", "[[link|text]]", "[[plain link]]", "{{a|x}}", "{{tpl|k=v|2}}", "{{#if:x|y|z}}",
           "{{PAGENAME}}", "<b>html</b>", "<span class=\"c\" id=\"i1\">s</span>", "[http://x.y ext]", "<br>", "{{a|{{a|n}}}}",
-          "''i '''bi''' i''", "<sup>2</sup>", "{{{1|d}}}", "[[a|'''b''']]", "x <ref name=\"r\">note</ref> y"]
+          "''i '''bi''' i''", "<sup>2</sup>", "a [<noinclude/>[b ''c'' d]<noinclude/>] e", "[<noinclude/>[x {{a|y}} z]<noinclude/>]",
+          "p [<noinclude/>[q <b>r</b> s]<noinclude/>] t", "{{{1|d}}}", "[[a|'''b''']]", "x <ref name=\"r\">note</ref> y"]
 
 
 def gen_doc(rng):
